@@ -36,3 +36,4 @@ import Ymq.Props.C03Rho
 #print axioms Ymq.C03Rho.rho_semiprime_no_panic
 #print axioms Ymq.C03Rho.rho_semiprime_proper
 #print axioms Ymq.C03Rho.noSmall_below_top
+#print axioms Ymq.C01.rho_call_sites_return
